@@ -41,6 +41,15 @@ def build(rnd):
         if m["bw"]["style"] == "trailers":
             m["bw"]["style"] = "plain"
     n = len(case["reqs"])
+    if rnd.int(0, 7) == 0:
+        # a WebSocket upgrade request that the server REFUSES (non-101 answer that still names the protocol):
+        # no protocol switch happens, so this stays an ordinary request/response flow
+        k = rnd.int(0, n - 1)
+        case["reqs"][k]["extra"] += [b"Connection: Upgrade", b"Upgrade: websocket", b"Sec-WebSocket-Version: 13", b"Sec-WebSocket-Key: dGhlIHNhbXBsZSBub25jZQ=="]
+        case["reqs"][k]["order"] = list(range(len(case["reqs"][k]["fields"]) + len(case["reqs"][k]["extra"]) + 1))
+        if k < len(case["resps"]):
+            case["resps"][k]["status"] = rnd.pick([426, 400, 200, 403])
+            case["resps"][k]["extra"] += [b"Upgrade: websocket", b"Connection: Upgrade"]
     pol = []
     for _ in range(rnd.pick([0, 1, 1, 2, 3])):
         pol.append([rnd.int(0, n - 1), rnd.pick(HOOKS), rnd.pick(ACTIONS), rnd.pick([1, 1, 2, 4, 9])])
